@@ -20,7 +20,7 @@ SPEC = dict(
                             'all 256 lead bytes x all strings of 0..5 class representatives (lengths 1..6)',
                 'quick': None},
     require=['giant-stated-length-decode', 'utf_catc-into-tight-string', 'encode-zero-has-length-0', 'encode-length-vs-table', 'encode-null-buffer-length', 'encode-bytes-vs-table',
-             'roundtrip-decode-length-and-value', 'proper-prefix-rejected', 'roundtrip-with-trailing-bytes',
+             'roundtrip-decode-length-and-value', 'proper-prefix-rejected', 'roundtrip-with-trailing-bytes', 'decode-result-cell-overlapping-the-input',
              'decode-val-and-null-variants-agree', 'decode-length-within-num-and-6', 'decode-trailing-bytes-are-continuation',
              'decode-leading-nul-returns-0', 'length-equals-decode-fold', 'length-stop-equals-decode-fold',
              'length_-executed-against-red-zone', 'length-wellformed-count-and-stop', 'length_-wellformed-count'],
